@@ -2,19 +2,19 @@ SPECIFICATION Spec
 CONSTANTS
   W = {"w1", "w2"}
   MaxBody = 1
-  Faults = 1
+  Faults = 0
   Stale = {1}
   DirMissing = FALSE
   AnySplit = FALSE
   KeepHist = TRUE
-  Reusers = {}
-  MaxRounds = 1
-  MinBody = 0
+  Reusers = {"w1"}
+  MaxRounds = 2
+  MinBody = 1
 INVARIANT DestOldOrNew
 INVARIANT FailedIsClean
 INVARIANT DoneIsNew
 INVARIANT TempsDisjoint
-CONSTRAINT OneAbnormal
+CONSTRAINT NoAbnormal
 CONSTRAINT MixedOrig
 ACTION_CONSTRAINT Canonical
 ACTION_CONSTRAINT EmitPath
